@@ -118,10 +118,8 @@ func cmdCheck(args []string) {
 	// functions under contract for this property
 	var names []string
 	for name, c := range w.db.Contracts {
-		for _, p := range c.Props {
-			if p == *prop {
-				names = append(names, name)
-			}
+		if contractServes(c, *prop) {
+			names = append(names, name)
 		}
 	}
 	sort.Strings(names)
@@ -262,6 +260,12 @@ func (cc *checkCtx) verifyOne(name string) {
 	}
 	x := w.newExec()
 	c := x.contractFor(fn)
+	if c != nil && c.Trusted {
+		rep.Status = "trusted (assumed, body not verified)"
+		cc.funcs = append(cc.funcs, rep)
+		cc.trusted["assumed contract of "+name+" (marked trusted; its body is not verified against it)"] = true
+		return
+	}
 	t0 := time.Now()
 	res := x.VerifyFunction(fn, c)
 	rep.ExecS = time.Since(t0).Seconds()
@@ -290,6 +294,14 @@ func (cc *checkCtx) verifyOne(name string) {
 	}
 	// vacuity: preconditions satisfiable, exit reachable
 	cc.vacuityChecks(x, fn, c, res, name)
+	// keep only the obligations attributed to this property
+	var mine []*Obligation
+	for _, o := range res.Obligations {
+		if contains(o.Props, cc.prop) {
+			mine = append(mine, o)
+		}
+	}
+	res.Obligations = mine
 	rs := discharge(x, res, cc.workDir, cc.timeoutS)
 	rep.Obligations = len(rs)
 	for _, r := range rs {
@@ -517,3 +529,28 @@ func (x *Exec) evalInputExpr(fn *ssa.Function, c *Contract, src string) (t *Term
 }
 
 var _ = strings.Join
+
+func contractServes(c *Contract, prop string) bool {
+	if contains(c.Props, prop) || contains(c.FrameProps, prop) {
+		return true
+	}
+	has := func(cl Clause) bool { return strings.HasPrefix(cl.Label, prop+".") }
+	for _, cl := range c.Ensures {
+		if has(cl) {
+			return true
+		}
+	}
+	for _, cc := range c.Calls {
+		if has(cc.C) {
+			return true
+		}
+	}
+	for _, ls := range c.Loops {
+		for _, cl := range ls {
+			if has(cl) {
+				return true
+			}
+		}
+	}
+	return false
+}
